@@ -59,6 +59,8 @@ def body_str(h):
     got1 = impl.get_variable(b'A$')
     h.require('string-roundtrip', s_and(len(got1) == n1, bytes_eq(got1, s1)), got1)
     impl.set_variable(b'B$', s2)
+    kept = impl.get_variable(b'A$')
+    h.require('first-string-kept-after-second-is-set', s_and(len(kept) == n1, bytes_eq(kept, s1)), kept)
     impl.set_variable(b'A$', s2)
     impl.set_variable(b'A$', s1)
     got2, got3 = impl.get_variable(b'A$'), impl.get_variable(b'B$')
